@@ -1051,8 +1051,8 @@ func retPair(r *engine.Run, rule string) {
 		}
 		group := opGroup(r, top)
 		for _, f := range group {
-			if f.Signature.Results().Len() != 2 {
-				continue
+			if f.Signature.Results().Len() != 2 || !isNamed(f.Signature.Results().At(0).Type(), pkgSC, "Value") {
+				continue // not a lookup (a helper that returns a link, a map, ...)
 			}
 			o := ord{}
 			for _, ret := range engine.Returns(f) {
